@@ -65,7 +65,12 @@ def run_history(desc):
     for s in desc["steps"]:
         op = s["op"]
         if op == "set_driver":
+            prev_driver = cur_driver
             cur_driver = np.resize(np.array(s["vals"], float), n)
+            if s.get("nudge"):
+                # a sensitivity / finite-difference step: the driver changes only slightly
+                cur_driver = prev_driver * (1.0 + s["nudge"]) if s["nudge_kind"] == "rel" else prev_driver + s["nudge"]
+                classes.add("driver-nudged")
             target = stock.stock if cfg["cls"].startswith("sdsm") else stock.inflow
             if s["how"] % 3 == 0:
                 target.values[...] = cur_driver.reshape(shape)
@@ -139,6 +144,9 @@ def histories(draw, max_steps=8):
             s["n_pts"] = draw(st.sampled_from([1, 1, 2, 3, 5]))
         if op == "set_driver":
             s["vals"] = draw(st.lists(st.floats(0.0, 50.0), min_size=n, max_size=n))
+            if draw(st.integers(0, 2)) == 0:
+                s["nudge"] = draw(st.sampled_from([1e-4, 2e-6, 1e-7, 1e-9]))
+                s["nudge_kind"] = draw(st.sampled_from(["rel", "rel", "abs"]))
         elif op == "set_prms" and "lt" in cfg:
             s["prms"] = draw(sg.lifetime_descs(U, classes=(cfg["lt"]["cls"],), well_conditioned=True))["prms"]
         elif op == "set_prms":
